@@ -2,7 +2,7 @@
     the round trip through the library (the agreement of the decoder with serde_json's on every
     input is decided by correspondence; see DESIGN.md).  Statements only. *)
 From Coq Require Import ZArith.
-From JP Require Import Base F64 Value Serde Decode Proofs.SerdeProof Proofs.DecodeProof.
+From JP Require Import Base F64 Value Serde Decode Proofs.SerdeProof Proofs.DecodeProof Proofs.DecodeMapProof.
 Open Scope Z_scope.
 
 (** Converting a typed value for searching ([ser_var]: the library's
@@ -44,14 +44,14 @@ Proof. vm_compute. repeat split; reflexivity. Qed.
 
 (** A typed value survives the trip through the library unchanged: for every type description
     [t] (primitives of every width, options, sequences, tuples, unit/newtype/tuple/named structs,
-    enums in the four variant shapes, maps, nested arbitrarily) and every value [x] of it that the
-    JSON image can carry ([chk]), decoding what the library's Serializer made of [x] yields [x].
-    Partial in one respect: for maps the statement covers key types whose order agrees with the
-    order of the spelled keys (strings, chars, newtypes of strings; enum keys only when the variant
-    order is the order of the names). *)
-Theorem C14_value_survives_partial : forall t x v, chk t x = true -> ser_var x = SOk v -> de t v = Some x.
+    enums in the four variant shapes, maps over every key type the Serializer can write — strings,
+    chars, newtypes and options of strings, unit-variant enums, whose order is not the order of the
+    spelled keys —, nested arbitrarily) and every value [x] of it that the JSON image can carry
+    ([chk]: finite floats, no [Some] around a value that serialises to null, no empty tuple variant),
+    decoding what the library's Serializer made of [x] yields [x]. *)
+Theorem C14_value_survives : forall t x v, chk t x = true -> ser_var x = SOk v -> de t v = Some x.
 Proof. exact de_ser_round_trip. Qed.
-Print Assumptions C14_value_survives_partial.
+Print Assumptions C14_value_survives.
 
 (** Integer targets apply the range check of their width: no wrap-around, floats refused. *)
 Theorem C14_integer_targets_checked : forall lo hi v x, de (TInt lo hi) v = Some x ->
@@ -68,19 +68,22 @@ Proof. exact (conj nested_none_is_lost (conj empty_tuple_variant_is_lost non_fin
 Print Assumptions C14_limits_of_the_json_image.
 
 (** the premises are satisfiable on a nested value: a struct holding an enum, a sequence of structs,
-    a string-keyed map of optional enums, a tuple at the 64-bit extremes and a newtype *)
+    a string-keyed map of optional enums, a tuple at the 64-bit extremes, a newtype, and a map keyed by an enum
+    (entries in variant order Red, Green; stored under the spelled keys in the order "Green", "Red") *)
 Definition ex_ty : ty :=
   let en := TEnum [([65], TUnit); ([66], TNewtype (TInt 0 4294967295)); ([67], TTupleStruct [TInt (-128) 127; TBool]);
                    ([68], TStruct [([112], TF64); ([113], TSeq (TInt 0 255))])] in
   TStruct [([101], en); ([108], TSeq (TStruct [([120], TInt (-2147483648) 2147483647); ([121], TOption TString)]));
            ([109], TMap KString (TOption en)); ([116], TTuple [TInt 0 18446744073709551615; TInt (-9223372036854775808) 9223372036854775807]);
-           ([119], TNewtype (TInt 0 255))].
+           ([119], TNewtype (TInt 0 255));
+           ([122], TMap (KEnum [[82; 101; 100]; [71; 114; 101; 101; 110]]) (TInt (-128) 127))].
 Definition ex_val : sval :=
   SStruct [([101], SStructVariant [68] [([112], SF64 (f_of_Z 3)); ([113], SSeq [SInt 1; SInt 255])]);
            ([108], SSeq [SStruct [([120], SInt (-7)); ([121], SNone)]; SStruct [([120], SInt 2147483647); ([121], SSome (SStr [97]))]]);
            ([109], SMap [(SStr [106], SSome (SNewtypeVariant [66] (SInt 2))); (SStr [107], SNone)]);
            ([116], STuple [SInt 18446744073709551615; SInt (-9223372036854775808)]);
-           ([119], SNewtypeStruct (SInt 9))].
+           ([119], SNewtypeStruct (SInt 9));
+           ([122], SMap [(SUnitVariant [82; 101; 100], SInt 1); (SUnitVariant [71; 114; 101; 101; 110], SInt (-1))])].
 Example C14_survives_example :
   chk ex_ty ex_val = true /\ match ser_var ex_val with SOk v => de ex_ty v = Some ex_val | SErr => False end.
 Proof. split; vm_compute; reflexivity. Qed.
